@@ -5,6 +5,7 @@ import (
 	"encoding/json"
 	"fmt"
 	"io"
+	"math"
 	"mime/multipart"
 	"strconv"
 
@@ -112,7 +113,14 @@ func prepareMultipart(payload []byte, uploadMap UploadMap) (body []byte, content
 			return b.Bytes(), w.FormDataContentType(), e
 		}
 
-		_, e = io.Copy(fw, uploadVariable.upload.File)
+		// the same file can be attached at several paths and sent to several services,
+		// possibly at the same time: read it from its beginning without moving a shared offset
+		var content io.Reader = uploadVariable.upload.File
+		if readerAt, ok := uploadVariable.upload.File.(io.ReaderAt); ok {
+			content = io.NewSectionReader(readerAt, 0, math.MaxInt64)
+		}
+
+		_, e = io.Copy(fw, content)
 		if e != nil {
 			return b.Bytes(), w.FormDataContentType(), e
 		}
